@@ -419,6 +419,7 @@ func runExec(t *testing.T, sc *scenario, prefix []int) *verifmc.ExecResult {
 		}()
 		// Instances that are up before the scenario starts load fault-free,
 		// outside the explored schedule (Points are no-ops for quiet handles).
+		w.steadyClock = true
 		for _, a := range x.act {
 			if !a.spec.loadInScenario {
 				if a.boot(true) == nil {
@@ -426,6 +427,7 @@ func runExec(t *testing.T, sc *scenario, prefix []int) *verifmc.ExecResult {
 				}
 			}
 		}
+		w.steadyClock = false
 		for _, a := range x.act {
 			s.Go(a.name, a.run)
 		}
@@ -536,12 +538,14 @@ func runProperty(t *testing.T, prop string, scenarios []*scenario, props ...stri
 			Scenario: sc.name, Bound: sc.bound, Shard: shard, NShards: nshards,
 			Deadline: time.Now().Add(share), DetEvery: 50,
 			Inflight: os.Getenv("VERIF_INFLIGHT"),
+			Known:    verifmc.KnownFindings(prop),
 			Run:      func(prefix []int) *verifmc.ExecResult { return filterProps(runExec(t, sc, prefix), props) },
 		}
 		e.Explore()
 		st := e.Stats
 		out.Violations = append(out.Violations, st.ViolationList...)
-		st.ViolationList = nil
+		out.Violations = append(out.Violations, st.KnownList...)
+		st.ViolationList, st.KnownList = nil, nil
 		out.Stats = append(out.Stats, st)
 		if !st.Exhaustive {
 			out.Exhaustive = false
